@@ -35,7 +35,7 @@ region("two_pointer", "\n".join(out) + "\n")
 # ---- partition --------------------------------------------------------------------------------
 CLQ = "quick sort step 2 (partition): afterwards the window holds the elements that compared less than the pivot, in their original relative order, then the pivot, then the others in their original relative order (stability); positions outside the window are untouched; exactly the comparison results of this window are consumed; the two sides are scheduled for sorting exactly when they have more than one element"
 out = []
-for (ln, starts, quick_codes) in ((2, (0, 5), None), (3, (1,), None), (4, (2,), {0, 1, 4, 9, 13, 17, 22, 26})):
+for (ln, starts, quick_codes) in ((2, (0, 5), None), (3, (1,), None), (4, (2,), {13})):
     for st in starts:
         for code in range(3 ** (ln - 1)):
             tier = "" if (quick_codes is None or code in quick_codes) and st == starts[0] else " tier=thorough"
@@ -51,7 +51,7 @@ region("quick_sort_2", "\n".join(out) + "\n")
 CLM = "merge step before a comparison: when one run is exhausted the rest of the other is copied in order to the positions that remain and the merge ends; otherwise the keys of the two run heads are requested for comparison (left head first operand) and the step after the comparison is scheduled"
 out = []
 for (nl, nr) in ((2, 2), (1, 3), (3, 1), (3, 3), (1, 1), (2, 3), (3, 2), (1, 2), (2, 1)):
-    tier = "" if (nl, nr) in ((2, 2), (1, 3), (3, 1)) else " tier=thorough"
+    tier = "" if (nl, nr) == (2, 2) else " tier=thorough"
     for li in range(nl + 1):
         for ri in range(nr + 1):
             nm = "merge_pre_%d_%d_at_%d_%d" % (nl, nr, li, ri)
